@@ -1165,7 +1165,8 @@ struct Digit {
         const bool round =
             (((*number > DigitUtils::DigitChar::Five) ||
               ((*number == DigitUtils::DigitChar::Five) &&
-               (round_up || ((SizeT32(stream.First()[index] - DigitUtils::DigitChar::Zero) & 1U) == 1U)))));
+               (round_up || ((index < stream.Length()) &&
+                             ((SizeT32(stream.First()[index] - DigitUtils::DigitChar::Zero) & 1U) == 1U))))));
 
         if (round) {
             ++number;
@@ -1176,8 +1177,11 @@ struct Digit {
             }
 
             if ((number > last) || (*number == DigitUtils::DigitChar::Nine)) {
-                power_increased         = true;
-                stream.Storage()[index] = DigitUtils::DigitChar::One;
+                power_increased = true;
+
+                if (index < stream.Length()) {
+                    stream.Storage()[index] = DigitUtils::DigitChar::One;
+                }
             } else {
                 ++(*number);
             }
